@@ -108,3 +108,29 @@ Example C14_returns_on_a_schedule :
   ddrive (comp_new 528384 15) (map (fun i => N.of_nat i mod 251) (seq 0 300)) [(100, 7, 0); (100, 50, 2); (300, 1000, 4)] [] 0
   <> Ret None.
 Proof. vm_compute. discriminate. Qed.
+
+(* ... and the Finish clause at level 0: after ANY schedule of deflate() calls that has not ended the stream, a call
+   with Finish and a non-empty output buffer returns stream end, or Okay with the output buffer COMPLETELY full -
+   whatever input it is offered ("keeps working until the stream ends or the output buffer is completely full") *)
+Theorem C14_level0_finish_works_until_end_or_full_partial :
+  forall (data : list N) (flags wb : N) (sched : list (N * N * N)) c rest acc n m out_len code ncons out c',
+  hasf flags FLAG_RAW = true -> wb <= 15 ->
+  Forall (fun it => legal_mz_flush (snd it)) sched ->
+  N.of_nat (length data) + 259 < 2 ^ 40 ->
+  dreach (comp_new flags wb) data sched [] 0 = Some (c, rest, acc, n) ->
+  0 < out_len ->
+  deflate c (firstn (N.to_nat m) rest) out_len 4 = Ret (DRet code ncons out c') ->
+  code = D_MZ_STREAM_END \/ (code = D_MZ_OK /\ N.of_nat (length out) = out_len).
+Proof. exact level0_finish_works_until_end_or_full. Qed.
+
+Example C14_finish_fills_then_ends :
+  match dreach (comp_new 528384 15) (map (fun i => N.of_nat i mod 251) (seq 0 300)) [(100, 7, 0); (100, 50, 2)] [] 0 with
+  | Some (c, rest, acc, n) =>
+      match deflate c rest 40 4, deflate c rest 1000 4 with
+      | Ret (DRet code1 _ out1 _), Ret (DRet code2 _ _ _) =>
+          code1 = D_MZ_OK /\ length out1 = 40%nat /\ code2 = D_MZ_STREAM_END
+      | _, _ => False
+      end
+  | None => False
+  end.
+Proof. vm_compute. repeat split; reflexivity. Qed.
